@@ -22,6 +22,12 @@ TRANSPARENT_METHODS = {"borrow", "deref", "clone", "as_ref", "to_owned", "as_str
 VALUE = "dmntk_feel::values::Value::"
 
 
+def strip_k(e):
+    while isinstance(e, dict) and e.get("k") in ("AddrOf", "DropTemps", "Paren") and isinstance(e.get("e"), dict):
+        e = e["e"]
+    return e if isinstance(e, dict) else {}
+
+
 class TooManyPaths(Exception):
     pass
 
@@ -237,7 +243,11 @@ class Evaluator:
         yield from self.ev(e["e"], st)
 
     def ev_Cast(self, e, st):
-        yield from self.ev(e["e"], st)
+        for s, v in self.ev(e["e"], st):
+            if self.ints and v[0] == "lit" and isinstance(v[1], str) and len(v[1]) == 1 and strip_k(e["e"]).get("lit") != "str":
+                yield s, ("lit", ord(v[1]))          # `ch as u32`
+            else:
+                yield s, v
 
     def ev_Unary(self, e, st):
         for s, a in self.ev(e["a"], st):
@@ -302,6 +312,8 @@ class Evaluator:
                 return mk_bool({"==": x == y, "!=": x != y, "<": x < y, "<=": x <= y, ">": x > y, ">=": x >= y}[op])
             if op in ("+", "-", "*"):
                 return ("lit", {"+": x + y, "-": x - y, "*": x * y}[op])
+            if op in (">>", "<<", "&", "|", "^") and x >= 0 and y >= 0 and (op not in (">>", "<<") or y < 128):
+                return ("lit", {">>": x >> y, "<<": x << y, "&": x & y, "|": x | y, "^": x ^ y}[op])
             if op in ("/", "%") and y != 0:
                 q = abs(x) // abs(y) * (1 if (x >= 0) == (y >= 0) else -1)      # Rust: truncation towards zero
                 return ("lit", q if op == "/" else x - q * y)
@@ -735,6 +747,16 @@ class Evaluator:
                         break
             if ok:
                 yield s, ("iterv", out)
+        elif seq0 is not None and method in ("all", "any") and len(args) == 2 and args[1][0] == "closure" and len(args[1]) == 4:
+            res, ok = [], True
+            for x in seq0:
+                rs = list(self.apply_closure(args[1], [x], s))
+                if len(rs) != 1 or rs[0][1][0] != "bool":
+                    ok = False
+                    break
+                res.append(rs[0][1][1])
+            if ok:
+                yield s, mk_bool(all(res) if method == "all" else any(res))
         elif seq0 is not None and method == "collect" and len(args) == 1:
             yield s, ("array", list(seq0))
         elif seq0 is not None and method in ("len", "count") and len(args) == 1:
@@ -743,6 +765,8 @@ class Evaluator:
             yield s, mk_bool(not seq0)
         elif seq0 is not None and method in ("first", "last") and len(args) == 1:
             yield s, (some(seq0[0 if method == "first" else -1]) if seq0 else none)
+        elif (c.endswith("::from_digit") and "char" in c) and len(args) == 2 and a0[0] == "lit" and isinstance(a0[1], int) and args[1][0] == "lit" and isinstance(args[1][1], int):
+            yield s, (some(("lit", "0123456789abcdefghijklmnopqrstuvwxyz"[a0[1]])) if 0 <= a0[1] < args[1][1] <= 36 else none)
         elif c.endswith("RangeInclusive::<Idx>::new") and len(args) == 2:
             yield s, ("range", args[0], args[1], True)
         elif method == "contains" and "ops::range::Range" in c and len(args) == 2 and a0[0] == "range":
